@@ -126,6 +126,9 @@ def build_prop(spec, parent):
             kw[k] = spec[k]
     if spec.get("uncertainty") is not None:
         kw["uncertainty"] = dec_val(spec["uncertainty"])
+    if spec.get("val_cardinality") is not None:
+        # (round 3) cardinalities are no RDF attributes; objects that carry one are exported like the others
+        kw["val_cardinality"] = spec["val_cardinality"]
     vals = [dec_val(v) for v in spec.get("values", [])]
     return odml.Property(name=spec.get("name"), values=vals if vals else None, parent=parent, **kw)
 
@@ -134,6 +137,9 @@ def build_sec(spec, parent):
     import odml
     kw = {}
     for k in ("definition", "reference", "repository"):
+        if spec.get(k) is not None:
+            kw[k] = spec[k]
+    for k in ("sec_cardinality", "prop_cardinality"):
         if spec.get(k) is not None:
             kw[k] = spec[k]
     sec = odml.Section(name=spec.get("name"), type=spec.get("type", "n.s."), parent=parent, **kw)
@@ -332,7 +338,8 @@ class C10(fw.Check):
     assumptions = [
         "in the streams tied to the model documents carry no link/include (finalize is the identity); ids are "
         "canonical uuid strings. Documents with resolved links, writers / readers used more than once and the "
-        "run in another process are judged by the implementation-level oracle alone",
+        "run in another process are judged by the implementation-level oracle alone; what a reader does with a "
+        "graph that is not an export (the damaged texts of the reader histories) is not judged at all",
         "repository URLs are not IRIs of RDF classes occurring in the graph",
         "values conform to their dtype (C05), so Property(values=..., dtype=...) keeps imported values",
     ]
@@ -345,7 +352,14 @@ class C10(fw.Check):
             "file names that already carry the extension / non-ASCII / blank); histories of ONE writer (2-3 exports "
             "through get_rdf_str / write_file / convert_to_rdf / str(), refused calls in between, the documents "
             "grow, change, shrink or carry links in between); one reader used twice; a run in another process "
-            "(locale C, other hash seed). Non-trivial = at least one Section and one Property with values (history: "
+            "(locale C, other hash seed). Round 3 adds: histories of ONE reader (RDFReader, RDFReader(file, fmt), "
+            "ODMLReader; 2-4 imports in mixed serialisations and entry points: exports damaged below the top "
+            "level - a Section / Property at any depth without a name, a link to a node that is not there, a "
+            "Section that links its own parent, an unknown dtype, no Hub, text that is no RDF - then the repaired "
+            "or edited export of the same documents, other documents, an empty export, the same graph once "
+            "more, a second reader in between, a new reader afterwards); an export that is refused while it "
+            "runs (unresolvable link) before the next export of the same writer; chains of 9-100 nested "
+            "Sections and 10-21 siblings; objects with cardinalities. Non-trivial = at least one Section and one Property with values (history: "
             "at least one edit took effect); distinct = distinct canonical JSON of the case.")
     quick_n = 400
     thorough_n = 7000
@@ -405,7 +419,8 @@ class C10(fw.Check):
             unc = enc_val(rng.choice([1, 2, 0]))
         if rng.random() < 0.04:
             name = None       # (round 2) an unnamed Property is named by its id
-        return {"name": name, "dtype": dtype, "values": vals, "unit": self.opt(rng, ["mV", "s", u"µm", ""]),
+        card = rng.choice([1, [1, 2], [None, 3], [5, 6], [0, None], 12]) if rng.random() < 0.06 else None
+        return {"val_cardinality": card, "name": name, "dtype": dtype, "values": vals, "unit": self.opt(rng, ["mV", "s", u"µm", ""]),
                 "uncertainty": unc, "definition": self.opt(rng, STRINGS), "reference": self.opt(rng, STRINGS),
                 "value_origin": self.opt(rng, STRINGS + ["file.dat"])}
 
@@ -416,7 +431,10 @@ class C10(fw.Check):
         nsubs = 0 if depth >= 3 else rng.choice([0, 0, 1, 2, 3] if depth < 2 else [0, 0, 1])
         if rng.random() < 0.04:
             name = None       # (round 2) an unnamed Section is named by its id
-        return {"name": name, "type": rng.choice(TYPES), "definition": self.opt(rng, STRINGS),
+        cards = [None, None]
+        if rng.random() < 0.06:
+            cards = [rng.choice([None, 1, [1, 2], [None, 1], [3, None]]) for _ in range(2)]
+        return {"sec_cardinality": cards[0], "prop_cardinality": cards[1], "name": name, "type": rng.choice(TYPES), "definition": self.opt(rng, STRINGS),
                 "reference": self.opt(rng, STRINGS), "repository": self.opt(rng, URLS, 0.15),
                 "props": [self.gen_prop(rng, names[i]) for i in range(nprops)],
                 "subs": [self.gen_sec(rng, names[i], depth + 1) for i in range(nsubs)]}
@@ -447,6 +465,7 @@ class C10(fw.Check):
                           "fmt": FORMATS[i % len(FORMATS)], "subclassing": mode != "off", "custom": custom,
                           "entry": entry})
         cases += self.generate_round2(tier, rng)
+        cases += self.generate_round3(tier, rng)
         for fmt in ["xml", "turtle", "nt", "json-ld", "n3", "pretty-xml", "trig", "bogus", "", "XML", "rdf"]:
             cases.append({"stream": "format", "fmt": fmt})
         for custom in [{"a": "B C"}, {"a": "B", "c": "D\tE"}, {"a": "B\n"}, {"cell": "X"}, {"k": u"A B"}]:
@@ -547,9 +566,103 @@ class C10(fw.Check):
                 edits = [self.gen_edit(rng, rng.choice(ops)) for _ in range(rng.choice([1, 2, 3]))]
             steps.append({"edits": edits, "fmt": fmt if rng.random() < 0.6 else rng.choice(FORMATS),
                           "entry": rng.choice(["string", "string", "file", "convert", "str"]),
-                          "refused": rng.choice([None, None, None, "badfmt", "nodir"])})
+                          "refused": rng.choice([None, None, None, "badfmt", "nodir", "badlink"]),
+                          "refused_at": self.gen_path(rng)})
         return {"stream": "hist", "kind": kind, "docs": docs, "links": links, "subclassing": mode != "off",
                 "custom": custom, "steps": steps}
+
+    # -- generation, round 3: histories of ONE reader, refusals below the top level, deep / wide trees --
+    DAMAGES = ["noname", "noname", "noname", "dangling", "dangling", "cycle", "baddtype", "nohub", "garbage"]
+
+    def gen_damage(self, rng):
+        return {"kind": rng.choice(self.DAMAGES), "tkind": rng.choice(["sec", "prop"]),
+                "nested": rng.random() < 0.6, "target": rng.randrange(12), "up": rng.randrange(3)}
+
+    def gen_rhist(self, rng, fmt):
+        def some_docs(n):
+            docs = []
+            for _ in range(n):
+                d = self.gen_doc(rng, small=True)
+                names = list(NAMES)
+                rng.shuffle(names)
+                d["secs"] = [self.gen_sec(rng, names[i], rng.choice([1, 2, 2]))
+                             for i in range(rng.choice([1, 1, 2]))]
+                docs.append(d)
+            return docs
+        mode = rng.choice(["on", "on", "off", "custom"])
+        custom = rng.choice([{"custom": "Custom"}, {"cell": "MyCell"}]) if mode == "custom" else {}
+        whats = ["good", "damaged", "damaged", "damaged", "damaged", "edited", "other", "empty", "again"]
+        nsteps = rng.choice([2, 2, 3, 3, 4])
+        steps = []
+        for k in range(nsteps):
+            what = rng.choice(whats)
+            if k == nsteps - 1:
+                # a history ends with an import that is judged
+                what = rng.choice(["good", "good", "good", "edited", "other", "again"])
+            st = {"what": what, "fmt": fmt if rng.random() < 0.6 else rng.choice(FORMATS),
+                  "entry": rng.choice(["string", "string", "file"]),
+                  "reader2": what == "damaged" and rng.random() < 0.15}
+            if what == "damaged":
+                st["damage"] = self.gen_damage(rng)
+            if what == "edited":
+                st["edits"] = [self.gen_edit(rng, rng.choice(self.EDIT_OPS + self.GROW_OPS))
+                               for _ in range(rng.choice([1, 2, 3]))]
+            steps.append(st)
+        return {"stream": "rhist", "docs": some_docs(rng.choice([1, 1, 2, 3])), "other": some_docs(rng.choice([1, 2])),
+                "subclassing": mode != "off", "custom": custom,
+                "reader": rng.choice(["rdf", "rdf", "rdf", "ctor", "oreader", "oreader:warn"]),
+                "writer": rng.choice(["fresh", "fresh", "owriter"]),
+                "fresh_after": rng.random() < 0.5, "steps": steps}
+
+    def gen_deep_doc(self, rng, depth):
+        """a chain of `depth` nested Sections (a Property here and there, one at the bottom)"""
+        inner = None
+        for i in range(depth, 0, -1):
+            sec = {"name": "lvl%d" % i, "type": rng.choice(TYPES), "definition": self.opt(rng, STRINGS, 0.2),
+                   "reference": None, "repository": None,
+                   "props": [self.gen_prop(rng, "p")] if (i == depth or rng.random() < 0.2) else [],
+                   "subs": [inner] if inner else []}
+            inner = sec
+        d = self.gen_doc(rng, small=True)
+        d["secs"] = [inner] + d["secs"][:1]
+        if len(d["secs"]) == 2 and d["secs"][1].get("name") == inner["name"]:
+            d["secs"] = d["secs"][:1]
+        return d
+
+    def gen_wide_doc(self, rng, nprops, nsubs):
+        """ten and more siblings of every kind (counted and named with two digits)"""
+        top = self.gen_sec(rng, "wide", 3)
+        top["props"] = [self.gen_prop(rng, "p%d" % i) for i in range(nprops)]
+        top["subs"] = [{"name": "s%d" % i, "type": rng.choice(TYPES), "definition": None, "reference": None,
+                        "repository": None, "props": [self.gen_prop(rng, "p")] if i % 4 == 0 else [], "subs": []}
+                       for i in range(nsubs)]
+        d = self.gen_doc(rng, small=True)
+        d["secs"] = [top] + [{"name": "t%d" % i, "type": "t", "definition": None, "reference": None,
+                              "repository": None, "props": [], "subs": []} for i in range(rng.choice([0, 10]))]
+        return d
+
+    def generate_round3(self, tier, rng):
+        quick = tier == "quick"
+        cases = []
+        # (a) one reader, a history of imports: exports that were damaged below the top level (refused by
+        #     the odML layer, not by rdflib), the repaired / edited export of the same documents, other
+        #     documents, nothing, the same graph again; RDFReader, RDFReader(file, fmt), ODMLReader
+        for i in range(45 if quick else 500):
+            cases.append(self.gen_rhist(rng, FORMATS[i % len(FORMATS)]))
+        # (b) boundary sizes of the tree: long chains of nested Sections, ten and more siblings
+        shapes = ["deep:12", "wide:11:10", "deep:40", "deep:100", "wide:10:12", "deep:25",
+                  "wide:13:11", "deep:60", "wide:12:21", "deep:9", "wide:10:10", "deep:33"]
+        for i in range(6 if quick else 36):
+            shape = shapes[i % len(shapes)]
+            if shape.startswith("wide"):
+                doc = self.gen_wide_doc(rng, int(shape.split(":")[1]), int(shape.split(":")[2]))
+            else:
+                doc = self.gen_deep_doc(rng, int(shape[5:]))
+            docs = [doc] + ([self.gen_doc(rng, small=True)] if rng.random() < 0.3 else [])
+            cases.append({"stream": "rt", "docs": docs, "fmt": FORMATS[(i + i // 12) % len(FORMATS)],
+                          "subclassing": rng.random() < 0.7, "custom": {},
+                          "entry": rng.choice(["string", "file", "ctor"])})
+        return cases
 
     # -- implementation ------------------------------------------------------
     def impl(self, case):
@@ -559,6 +672,8 @@ class C10(fw.Check):
             return self.impl_hist(case)
         if st == "rreuse":
             return self.impl_rreuse(case)
+        if st == "rhist":
+            return self.impl_rhist(case)
         if st == "proc":
             return self.impl_proc(case)
         if st == "format":
@@ -866,6 +981,7 @@ class C10(fw.Check):
 
     def impl_hist(self, case):
         import warnings
+        import odml
         import rdflib
         from rdflib import URIRef
         from rdflib.namespace import RDF
@@ -917,6 +1033,25 @@ class C10(fw.Check):
                     except Exception as exc:
                         so["refused"] = fw.exc_name(exc)
                     exported = True
+                elif step.get("refused") == "badlink":
+                    # (round 3) an export that is refused while it runs: a Section of (typically not the
+                    # first) document carries a link that cannot be resolved, Document.finalize() raises
+                    # after the documents before it have been converted; the link is taken away again
+                    sec = self.resolve(docs, step.get("refused_at") or [0])
+                    if isinstance(sec, odml.doc.BaseDocument):
+                        sec = sec.sections[-1] if len(sec.sections) else None
+                    if sec is not None and getattr(sec, "_link", 0) is None and \
+                            getattr(sec, "_include", 0) is None:
+                        # (Section.link documents `_link` as the way to set a link without resolving it)
+                        sec._link = "/c10 no such section/x"
+                        try:
+                            writer.get_rdf_str(fmt)
+                            so["refused"] = "accepted"
+                        except Exception as exc:
+                            so["refused"] = fw.exc_name(exc)
+                        finally:
+                            sec._link = None
+                        exported = True
                 if exported and nlinks:
                     # every conversion resolves the links again: the linked copies are replaced by new
                     # ones (new ids) and merged content may change
@@ -1025,6 +1160,191 @@ class C10(fw.Check):
         finally:
             if tmp:
                 shutil.rmtree(tmp, ignore_errors=True)
+        return obs
+
+    # -- round 3: one reader, a history of imports ------------------------------
+    GARBAGE = "<<< this is no RDF in any serialisation {[ \""
+
+    @staticmethod
+    def damage_graph(graph, docs, dmg):
+        """Turns the exported graph of `docs` into a graph that still is RDF but no export any more: a
+        Section / Property at any depth loses its name, a Section links a node that is not there
+        (truncated file), a Section links one of its own parents, a Property has an unknown dtype, the
+        Hub is gone. -> what was done | None (no such object in these documents: the graph is unchanged)"""
+        from rdflib import URIRef, Literal
+        from odml import format as ofmt
+        secs, props = [], []
+
+        def walk(sec, anc):
+            secs.append((str(sec.id), anc))
+            for p in sec.properties:
+                props.append((str(p.id), anc + [str(sec.id)]))
+            for c in sec.sections:
+                walk(c, anc + [str(sec.id)])
+        for d in docs:
+            for sec in d.sections:
+                walk(sec, [])
+
+        def pick(pool):
+            if dmg.get("nested") and any(anc for _i, anc in pool):
+                pool = [e for e in pool if e[1]]
+            return pool[dmg["target"] % len(pool)] if pool else None
+        kind = dmg["kind"]
+        if kind == "nohub":
+            graph.remove((URIRef(NS + "Hub"), None, None))
+            return "nohub"
+        if kind == "noname":
+            is_prop = dmg["tkind"] == "prop" and props
+            hit = pick(props if is_prop else secs)
+            if hit is None:
+                return None
+            fmt_obj = ofmt.Property if is_prop else ofmt.Section
+            graph.remove((URIRef(NS + hit[0]), URIRef(str(fmt_obj.rdf_map("name"))), None))
+            return "noname %s depth %d" % ("prop" if is_prop else "sec", len(hit[1]))
+        if kind == "baddtype":
+            hit = pick(props)
+            if hit is None:
+                return None
+            graph.set((URIRef(NS + hit[0]), URIRef(str(ofmt.Property.rdf_map("dtype"))), Literal("c10 no dtype")))
+            return "baddtype depth %d" % len(hit[1])
+        hit = pick(secs)
+        if hit is None:
+            return None
+        node = URIRef(NS + hit[0])
+        if kind == "dangling":
+            key = "properties" if dmg["tkind"] == "prop" else "sections"
+            graph.add((node, URIRef(str(ofmt.Section.rdf_map(key))),
+                       URIRef(NS + "00000000-0000-4000-8000-%012d" % dmg["target"])))
+            return "dangling %s depth %d" % (key, len(hit[1]))
+        if kind == "cycle":
+            anc = hit[1]
+            up = URIRef(NS + anc[dmg["up"] % len(anc)]) if anc else node
+            graph.add((node, URIRef(str(ofmt.Section.rdf_map("sections"))), up))
+            return "cycle depth %d" % len(hit[1])
+        return None
+
+    def impl_rhist(self, case):
+        import warnings
+        import rdflib
+        from odml.tools.rdf_converter import RDFWriter, RDFReader
+        from odml.tools.odmlparser import ODMLReader
+        warnings.simplefilter("ignore")
+        docs = [build_doc(d) for d in case["docs"]]
+        others = None
+        kw = {"rdf_subclassing": case["subclassing"]}
+        if case["custom"]:
+            kw["custom_subclasses"] = dict(case["custom"])
+        kind = case["reader"]
+
+        def new_reader():
+            if kind.startswith("oreader"):
+                return ODMLReader("RDF", show_warnings=kind.endswith(":warn"))
+            return RDFReader()
+        readers = {}
+        owriter = None
+        holder = type("Held", (object,), {"docs": docs})()
+        obs = {"steps": []}
+        tmp = tempfile.mkdtemp(prefix="c10_")
+        last = None          # (text, fmt, expected documents) of the latest import that was judged
+        in_graph = {}        # reader number -> expected documents of the graph the reader holds (or None)
+        try:
+            for k, step in enumerate(case["steps"]):
+                fmt, what = step["fmt"], step["what"]
+                so = {"what": what, "fmt": fmt, "judged": False}
+                obs["steps"].append(so)
+                rno = 2 if step.get("reader2") else 1
+                so["reader"] = rno
+                if what == "again":
+                    # the graph the reader already holds is converted once more
+                    reader = readers.get(rno)
+                    if reader is not None and in_graph.get(rno) and hasattr(reader, "to_odml"):
+                        so["fmt"], so["original_raw"] = in_graph[rno]
+                        so["judged"] = True
+                        try:
+                            so["imported_raw"] = [self.raw_doc(d) for d in reader.to_odml()]
+                        except Exception as exc:
+                            so["imported_raw"] = {"raised": fw.exc_name(exc)}
+                        continue
+                    what = so["what"] = "good"
+                if what == "edited":
+                    so["edits"] = []
+                    for e in step.get("edits", []):
+                        try:
+                            so["edits"].append(self.apply_edit(docs, e, False, holder))
+                        except Exception as exc:
+                            so["edits"].append("refused:" + fw.exc_name(exc))
+                if what == "other" and others is None:
+                    others = [build_doc(d) for d in case["other"]]
+                src = {"other": others, "empty": []}.get(what, docs)
+                if case.get("writer") == "owriter" and len(src) == 1:
+                    # the texts of one history come from ONE ODMLWriter("RDF") object
+                    if owriter is None:
+                        from odml.tools.odmlparser import ODMLWriter
+                        owriter = ODMLWriter("RDF")
+                    text = owriter.to_string(src[0], rdf_format=fmt)
+                else:
+                    text = RDFWriter(list(src), **kw).get_rdf_str(fmt)
+                if what == "damaged":
+                    dmg = step["damage"]
+                    done = None
+                    if dmg["kind"] == "garbage":
+                        text, done = self.GARBAGE, "garbage"
+                    else:
+                        graph = rdflib.Graph().parse(data=text, format=fmt)
+                        done = self.damage_graph(graph, src, dmg)
+                        if done:
+                            text = graph.serialize(format=fmt)
+                            if isinstance(text, bytes):
+                                text = text.decode("utf-8")
+                    so["damage"] = done
+                    if not done:
+                        what = so["what"] = "good"
+                judged = what != "damaged"
+                expected = [self.raw_doc(d) for d in src]
+                path = None
+                if step["entry"] == "file" or (kind == "ctor" and rno not in readers):
+                    path = os.path.join(tmp, "step%d" % k + EXT[fmt])
+                    with open(path, "w", encoding="utf-8", newline="") as fh:
+                        fh.write(text)
+                try:
+                    if rno not in readers and kind == "ctor":
+                        # RDFReader(file, fmt) parses in the constructor; when that fails there is no
+                        # reader and the next step creates one
+                        so["entry"] = "ctor"
+                        reader = RDFReader(path, fmt)
+                        readers[rno] = reader
+                        back = reader.to_odml()
+                    else:
+                        if rno not in readers:
+                            readers[rno] = new_reader()
+                        reader = readers[rno]
+                        so["entry"] = step["entry"]
+                        back = reader.from_file(path, fmt) if path else reader.from_string(text, fmt)
+                    res = [self.raw_doc(d) for d in back]
+                except RecursionError:
+                    res = {"raised": "RecursionError"}
+                except Exception as exc:
+                    res = {"raised": fw.exc_name(exc)}
+                if judged:
+                    so["judged"] = True
+                    so["original_raw"], so["imported_raw"] = expected, res
+                    last = (text, fmt, expected)
+                    in_graph[rno] = (fmt, expected)
+                else:
+                    # what a reader does with a graph that is no export is not judged, only recorded
+                    so["outcome"] = res["raised"] if isinstance(res, dict) else "accepted"
+                    in_graph[rno] = None
+            if case.get("fresh_after") and last is not None:
+                # a reader created after all this starts from nothing
+                text, fmt, expected = last
+                so = {"what": "fresh", "fmt": fmt, "judged": True, "original_raw": expected}
+                obs["steps"].append(so)
+                try:
+                    so["imported_raw"] = [self.raw_doc(d) for d in RDFReader().from_string(text, fmt)]
+                except Exception as exc:
+                    so["imported_raw"] = {"raised": fw.exc_name(exc)}
+        finally:
+            shutil.rmtree(tmp, ignore_errors=True)
         return obs
 
     # -- round 2: another process (locale C, ASCII default encoding, other hash seed) ----
@@ -1225,7 +1545,7 @@ class C10(fw.Check):
         return bad
 
     # -- model ---------------------------------------------------------------
-    ORACLE_ONLY = ("hist", "rreuse", "proc")
+    ORACLE_ONLY = ("hist", "rreuse", "proc", "rhist")
 
     def model_requests(self, case, obs):
         st = case["stream"]
@@ -1345,6 +1665,8 @@ class C10(fw.Check):
             return self.oracle_hist(case, obs)
         if st == "rreuse":
             return self.oracle_rreuse(case, obs)
+        if st == "rhist":
+            return self.oracle_rhist(case, obs)
         if st == "proc":
             return self.oracle_proc(case, obs)
         for b in obs["shape"]:
@@ -1434,6 +1756,18 @@ class C10(fw.Check):
             out += self.cmp_docs(obs["orig_b"], mine, case["fmt"])
         return out
 
+    def oracle_rhist(self, case, obs):
+        """(round 3) Every import of an exported graph returns the exported documents, whatever the
+        reader object has been asked before - also after an import it refused, at any depth and at any
+        stage (rdflib, the mandatory-attribute check, the recursion, the object constructors). What a
+        reader does with a graph that is not an export (the damaged texts) is not judged."""
+        out = []
+        for k, so in enumerate(obs["steps"]):
+            if not so.get("judged"):
+                continue
+            out += ["%s [step %d]" % (f, k) for f in self.cmp_docs(so["original_raw"], so["imported_raw"], so["fmt"])]
+        return out
+
     def oracle_proc(self, case, obs):
         if "proc_failed" in obs:
             return ["the export/import program ended with %s: %s" % (obs["proc_failed"], obs.get("stderr", "")[-300:])]
@@ -1487,7 +1821,7 @@ class C10(fw.Check):
         # the history / process streams mark where a failure belongs; the failure text in front of
         # the mark is the one the one-shot stream produces and is classified the same way
         m = re.search(r" \[(step|entry) ([^\]]*)\]$", failure)
-        if m and st in ("hist", "proc"):
+        if m and st in ("hist", "proc", "rhist"):
             failure = failure[:m.start()]
             if m.group(1) == "step":
                 try:
@@ -1547,6 +1881,10 @@ class C10(fw.Check):
         if st == "hist":
             return ("hist:%s" % case["kind"], any(e is not None for so in obs.get("steps", [])
                                                  for e in so.get("edits", [])) or case["kind"] == "link")
+        if st == "rhist":
+            steps = obs.get("steps", [])
+            return ("rhist:%s" % case["reader"].split(":")[0],
+                    any(so.get("judged") for so in steps) and len(steps) > 1)
         if st != "rt":
             return (st, True)
         nontrivial = any(s.get("props") and any(p["values"] for p in s["props"])
